@@ -25,6 +25,7 @@ type Sent struct {
 	ConnNam string
 	OpSeq   uint64 // sequence number at which the writing task's current operation began
 	Task    string
+	ArmSeq  uint64 // for timer tasks: when the timer was armed
 }
 
 // Delivery is one datagram handed to a node's reader.
@@ -97,6 +98,7 @@ func (cw *connWriter) WriteShipMessageWithPayload(msg []byte) {
 	s.Stale = cw.gen != c.Gen || (c.Closed && c.RemovedAt != 0)
 	if t := simrt.Self(); t != nil {
 		s.OpSeq, s.Task = t.OpSeq, t.String()
+		s.ArmSeq = w.ArmSeq[t]
 	}
 	s.Seq = w.Logf("send %s gen=%d %s", c.Name, cw.gen, DescribeDatagram(s.D, cp))
 	c.Out = append(c.Out, s)
